@@ -25,6 +25,7 @@ fn c05_optimised_and_plain_engines_agree() {
         "/wild/*/longer-than-the-url-longer-than-the-url-longer-than-the-url", "/wild/*/w",
         "@@/banners/ok-but-this-exception-pattern-is-much-longer-than-the-urls", "@@/banners/ok",
         "/csp1$csp=script-src 'none'", "/csp1$csp=worker-src 'none'",
+        "|https://a.io/xa|", "|https://a.io/xb|", "|https://a.io/xc|",
     ];
     let plain = engine(&rules, false);
     let optimised = engine(&rules, true);
@@ -33,6 +34,7 @@ fn c05_optimised_and_plain_engines_agree() {
         "https://a.io/banners/leaderboardspringcollection728x90creativevariantb.gif",
         "https://a.io/s", "https://a.io/sx", "https://b.io/t.gif", "https://b.io/t.gifx", "https://a.io/h", "https://a.io/hx", "https://b.io/h",
         "https://b.io/sep/s/", "https://b.io/sep/s", "https://b.io/wild/1/w", "https://b.io/wild/w", "https://b.io/csp1",
+        "https://a.io/xa", "https://a.io/xb", "https://a.io/xc", "https://a.io/xd",
     ] {
         for t in ["image", "script", "document"] {
             let req = Request::new(url, "https://news.example/", t).unwrap();
@@ -49,4 +51,29 @@ fn c05_optimised_and_plain_engines_agree() {
     // controls: the short rules are live
     assert!(plain.check_network_request(&Request::new("https://a.io/banners/top", "https://news.example/", "image").unwrap()).matched);
     assert!(plain.check_network_request(&Request::new("https://b.io/t.gif", "https://news.example/", "image").unwrap()).matched);
+}
+
+/// OBL C05.witness.explicit_optimize
+#[test]
+fn c05_explicit_optimize_keeps_verdicts() {
+    use adblock::blocker::{Blocker, BlockerOptions};
+    use adblock::resources::ResourceStorage;
+    let rules = ["/banners/a", "/banners/b", "@@/banners/ok1", "@@/banners/ok2", "||x.test^$removeparam=utm_a", "||x.test^$removeparam=utm_b", "||x.test^$removeparam=utm_c",
+                 "/csp2$csp=script-src 'none'", "/csp2$csp=worker-src 'none'", "||r.test^$redirect-rule=a.js", "||r.test^$redirect-rule=b.js:5"];
+    let (filters, _) = adblock::lists::parse_filters(&rules, true, ParseOptions::default());
+    let mut blocker = Blocker::new(filters, &BlockerOptions { enable_optimizations: false });
+    let resources = ResourceStorage::default();
+    let reqs: Vec<Request> = ["https://a.io/banners/a", "https://a.io/banners/b", "https://a.io/banners/ok1", "https://a.io/banners/ok2/banners/a",
+                              "https://x.test/p?utm_a=1&utm_b=2&utm_c=3&keep=4", "https://x.test/p?utm_c=3", "https://b.io/csp2", "https://r.test/a"]
+        .iter().flat_map(|u| ["script", "document"].into_iter().map(move |t| Request::new(u, "https://news.example/", t).unwrap())).collect();
+    let obs = |b: &Blocker| -> Vec<String> {
+        reqs.iter().map(|r| { let v = b.check(r, &resources);
+            let mut csp: Vec<String> = b.get_csp_directives(r).map(|s| s.split(',').map(String::from).collect()).unwrap_or_default(); csp.sort();
+            format!("{} {:?}: m={} e={} rw={:?} csp={:?}", r.url, r.request_type, v.matched, v.exception.is_some(), v.rewritten_url, csp) }).collect()
+    };
+    let before = obs(&blocker);
+    blocker.optimize();
+    let after = obs(&blocker);
+    for (a, b) in before.iter().zip(after.iter()) { assert_eq!(a, b, "explicit optimize() changed an answer"); }
+    assert!(before.iter().any(|x| x.contains("rw=Some")) && before.iter().any(|x| x.contains("m=true")));
 }
